@@ -86,7 +86,7 @@ fn main() {
         "c08e2e" => c08::run_e2e(&args),
         "c08one" => c08::run_one(&args),
         "c08e2eone" => c08::run_e2e_one(&args),
-        "c10" => c10::run(&args), "c10e2e" => c10::run_e2e(&args), "c10probe" => c10::run_probe(&args), "c10probe2" => c10::run_probe2(&args),
+        "c10" => c10::run(&args), "c10e2e" => c10::run_e2e(&args), "c10big" => c10::run_big(&args),
         "c09" => c09::run(&args), "c09e2e" => c09::run_e2e(&args), "c09wit" => c09::run_witness(&args),
         "c11" => c11::run("c11", &args), "c11x" => c11::run("c11x", &args), "c11adv" => c11::run("c11adv", &args), "c11fea" => c11::run_file(&args),
         "c16" => c16::run(&args),
@@ -94,15 +94,15 @@ fn main() {
         "c17" => c17::run(&args),
         "c17x" => c17::run_directed(&args),
         "c18" => c18::run(&args), "c18child" => c18::run_child(&args), "c18e2e" => c18::run_e2e(&args),
-        "c12e2e" => c12::run(&args), "c12dir" => c12::run_directed(&args),
+        "c12e2e" => c12::run(&args), "c12dir" => c12::run_directed(&args), "c12" => c12::run_pure(&args),
         "c13lex" => c13::run_lex(&args),
         "c13inc" => c13::run_inc(&args),
         "c03e2e" => c03::run("c03e2e", &args),
         "c04e2e" => c03::run("c04e2e", &args),
         "c19e2e" => c19::run("c19e2e", &args), "c19e2e_rel" => c19::run("c19e2e_rel", &args), "c19big" => c19::run("c19big", &args), "c19big_rel" => c19::run("c19big_rel", &args), "c19obs" => c19::run_obs("c19obs", &args), "c19bigobs" => c19::run_obs("c19bigobs", &args),
         "c14names" | "c14paths" | "c14emit" => c14::run(argv[0].as_str(), &args),
-        "c20plist" => c20::run_plist(&args), "c20args" => c20::run_args(&args), "c20e2e" => c20::run_e2e(&args), "c20child" => c20::run_child(&argv[1..]),
-        "c15graph" => c15::run_graph(&args), "c15mut" => c15::run_mut(&args), "c15child" => c15::run_child(&args),
+        "c20plist" => c20::run_plist(&args), "c20args" => c20::run_args(&args), "c20e2e" => c20::run_e2e(&args), "c20child" => c20::run_child(&argv[1..]), "c20unicode" => c20::run_unicode(&args),
+        "c15graph" => c15::run_graph(&args), "c15mut" => c15::run_mut(&args), "c15child" => c15::run_child(&args), "c15corpus" => c15::run_corpus(&args),
         other => {
             eprintln!("unknown stream {other}");
             std::process::exit(2);
